@@ -913,15 +913,59 @@ func watchdog() {
 	}()
 }
 
+// runNoModeRoot: the backend's GetAttr on the attach root reports no mode (the
+// Mode bit of the valid mask is clear), i.e. the backend never reported the
+// root as a directory. Whatever the server answers, no name may then be
+// walked from the root: not by an attach name, not by a Twalk from a fid
+// bound to the root.
+func runNoModeRoot(rep *fw.Report, wga bool) {
+	e := start(8192, wga, func(fs *memfs.FS) { fs.MkdirP("a/b") })
+	fs, s := e.fs, e.s
+	fs.Hook = func(c *memfs.Call) *memfs.Action {
+		if c.Method == "GetAttr" && (c.Path == "/" || c.Path == "") {
+			return &memfs.Action{Override: &memfs.Override{Valid: &p9.AttrMask{Size: true}}}
+		}
+		return nil
+	}
+	rootHandles := map[int]bool{}
+	before := len(fs.Calls)
+	for _, m := range []refcodec.Msg{rawpeer.Tattach(70, 1, ""), rawpeer.Twalk(71, 1, 2, "a"), rawpeer.Tattach(72, 3, "a/b"), rawpeer.Tattach(73, 4, "/a"), rawpeer.Twalk(74, 1, 5, "a", "b"), rawpeer.Twalkgetattr(75, 1, 6, "a")} {
+		s.Do(m)
+	}
+	e.stop()
+	rep.States++
+	rep.Evaluations++
+	for _, c := range fs.Calls[before:] {
+		if c.Method == "Attach" && c.NewH >= 0 {
+			rootHandles[c.NewH] = true
+		}
+	}
+	for _, c := range fs.Calls[before:] {
+		if len(c.Names) > 0 && (c.Method == "Walk" || c.Method == "WalkGetAttr") {
+			rep.Violate(&fw.Violation{Fingerprint: "walk-from-node-not-reported-as-directory|attach-root-without-mode",
+				Summary:  fmt.Sprintf("the backend's GetAttr on the attach root reported no mode, yet the server called %s(%v) on %s: it advanced through a node the backend never reported as a directory", c.Method, c.Names, c.Path),
+				Scenario: "attach-root-without-mode", Params: fw.JSON(map[string]bool{"walkgetattr_implemented": wga})})
+			break
+		}
+	}
+	rep.Distinct(fmt.Sprintf("nomode-root|wga=%v|named-calls=%d", wga, len(namedCalls(fs.Calls[before:]))))
+}
+
 func run(ctx *fw.Ctx, rep *fw.Report) {
 	memfs.RecordSites = false
-	rep.Rule = "complete product: 18-name alphabet {empty . .. / a/b /a a/ a//b ./a a/.. ..a ... NUL highbytes space 255xa 65535xa ok} x 13 single-name positions (Tlcreate Tucreate Tmkdir Tumkdir Tsymlink Tusymlink Tlink Tmknod Tumknod Trename Trenameat.old Trenameat.new Tunlinkat), Trenameat old x new (18x18), every Twalk and Twalkgetattr name list of length 1..3 over the alphabet, attach names = the property's list + every list of 1..3 alphabet components joined by '/' with and without leading '/', and walks/attaches whose intermediate node is dir(control)/file/symlink/fifo/chardev/blockdev/socket in 8 request shapes; everything x memfs WalkGetAttr {ENOSYS, implemented}; one fresh server+memfs per case, raw refcodec peer; distinct = (position, name class, reply, number of backend calls)"
+	rep.Rule = "complete product: 18-name alphabet {empty . .. / a/b /a a/ a//b ./a a/.. ..a ... NUL highbytes space 255xa 65535xa ok} x 13 single-name positions (Tlcreate Tucreate Tmkdir Tumkdir Tsymlink Tusymlink Tlink Tmknod Tumknod Trename Trenameat.old Trenameat.new Tunlinkat), Trenameat old x new (18x18), every Twalk and Twalkgetattr name list of length 1..3 over the alphabet, attach names = the property's list + every list of 1..3 alphabet components joined by '/' with and without leading '/', and walks/attaches whose intermediate node is dir(control)/file/symlink/fifo/chardev/blockdev/socket in 8 request shapes, plus an attach root for which the backend reports no mode (nothing may be walked from it); everything x memfs WalkGetAttr {ENOSYS, implemented}; one fresh server+memfs per case, raw refcodec peer; distinct = (position, name class, reply, number of backend calls)"
 	rep.Assumptions = append(rep.Assumptions,
 		"attach name reading: one leading '/' is the absolute marker, the rest is split at '/'; names starting with '//' may be answered EINVAL or walked (text silent), what reaches the backend is checked in either case",
 		"Tattach with a bad component: the nameless preamble Attach()/GetAttr/Close on the root is not 'a name reaching the backend' and is accepted before the EINVAL; any call carrying a name is not",
 		"fids used are bound (an unbound fid together with a bad name may be EBADF or EINVAL: text silent, not enumerated)",
 		"legal but odd names (..a ... NUL highbytes space 255/65535 bytes) must reach the backend byte-identical; the backend's own answer (ENOENT, EEXIST ...) is not judged")
 
+	if ctx.Replay != nil && ctx.Replay.Scenario == "attach-root-without-mode" {
+		var q map[string]bool
+		_ = json.Unmarshal(ctx.Replay.Params, &q)
+		runNoModeRoot(rep, q["walkgetattr_implemented"])
+		return
+	}
 	if ctx.Replay != nil {
 		var p params
 		if err := json.Unmarshal(ctx.Replay.Params, &p); err != nil {
@@ -934,6 +978,10 @@ func run(ctx *fw.Ctx, rep *fw.Report) {
 		return
 	}
 	watchdog()
+	if ctx.Shard == 0 && ctx.Filter == "" {
+		runNoModeRoot(rep, false)
+		runNoModeRoot(rep, true)
+	}
 	i := -1
 	stopped := false
 	enumerate(false, func(p params) { // both tiers enumerate the complete product (it takes about a second)
